@@ -44,7 +44,7 @@ def gen_cases(ctx):
                     break
             else:
                 continue
-            kind = rng.choice(["mod", "mod", "mod", "big", "huge", "nan", "inf", "zero", "edge"])
+            kind = rng.choice(["mod", "mod", "mod", "big", "huge", "nan", "inf", "zero", "edge", "half", "half"])
             if kind == "mod":
                 u, v = rng.randint(-16, 16) / 8, rng.randint(-16, 16) / 8
             elif kind == "big":
@@ -55,6 +55,10 @@ def gen_cases(ctx):
                 u, v = float("nan"), 0.25
             elif kind == "inf":
                 u, v = rng.choice([float("inf"), float("-inf")]), 0.0
+            elif kind == "half":  # candidate exactly on a cell face (x = k + 1/2): the cell it belongs to decides land / sea
+                xh = rng.randint(int(i0) + 1, int(i1) - 2) + 0.5
+                u = (xh - x) * DX / DT
+                v = ((rng.randint(int(j0) + 1, int(j1) - 2) + 0.5 - y) * DX / DT) if rng.random() < 0.5 else 0.0
             elif kind == "edge":  # candidate exactly on the border of the valid region
                 u, v = ((rng.choice([i0 + 0.5, i1 - 1.5]) - x) * DX / DT), 0.0
             else:
